@@ -14,12 +14,15 @@
 // count x element words, zero-sized structs use offset -1, objects and
 // landing pads reached through different pointers are identical or disjoint,
 // list padding is zero; and the tree ref.Validate decodes must be Identical
-// to the model tree of the root.  The storage of distinct handles must be
+// to the model tree of the root; the same for every live handle whose object
+// is not (yet) reachable from the root, on a copy of the segments re-rooted
+// at that object.  The storage of distinct handles must be
 // pairwise disjoint and inside the segments.
 package main
 
 import (
 	"bytes"
+	"encoding/binary"
 	"fmt"
 	"time"
 
@@ -89,6 +92,30 @@ func oracle(r *vlib.Rec) bfsbuild.Oracle {
 				fail("validate/list-padding-not-zero"+after, fmt.Sprintf("%d primitive lists reachable from the root have non-zero padding%s", rep.DirtyPadding, ctx))
 				return
 			}
+			// Objects not (yet) reachable from the root: re-root a copy of the
+			// segments at every live handle (root word := double-far pointer
+			// to a landing pad in an extra last segment that addresses the
+			// handle's object) and judge that message the same way.
+			for hi, h := range w.H {
+				o := w.Objs[h.Obj]
+				hs := bfsbuild.Slot{K: bfsbuild.SlotObj, Obj: h.Obj}
+				hwant, hcut := w.Unfold(hs)
+				if hcut || o.Seg < 0 || handleWords(o) == 0 {
+					continue
+				}
+				segs2 := reroot(segs, o)
+				hrep, err := ref.Validate(segs2)
+				hctx := "\n (message re-rooted at the handle through an extra landing-pad segment) " + ref.HexSegments(segs2)
+				if err != nil {
+					fail("validate-handle/"+ref.ErrClass(err)+after, fmt.Sprintf("object behind handle h%d: %v\n model %s%s", hi, err, hwant, hctx))
+					return
+				}
+				if !ref.Identical(hrep.Root, hwant) {
+					fail("decode-handle/differs-from-model"+after, fmt.Sprintf("independent decoder reads the object behind handle h%d as %s\n model %s%s", hi, hrep.Root, hwant, hctx))
+					return
+				}
+				r.Outcome("handle/judged")
+			}
 			far, dfar := 0, 0
 			for _, e := range rep.Extents {
 				if e.Kind == "pad" {
@@ -118,6 +145,49 @@ func oracle(r *vlib.Rec) bfsbuild.Oracle {
 	}
 }
 
+// handleWords is the size in words of what a pointer to o addresses.
+func handleWords(o *bfsbuild.Obj) int {
+	if !o.IsList {
+		return o.DW + o.PC
+	}
+	switch o.Elem {
+	case ref.ElemVoid:
+		return 0
+	case ref.ElemPtr:
+		return o.N
+	case ref.ElemComposite:
+		return 1 + o.N*(o.DW+o.PC)
+	}
+	return (len(o.Data) + 7) / 8
+}
+
+// reroot returns a copy of segs with one more segment holding a double-far
+// landing pad [far pointer to o, tag describing o], and the root word replaced
+// by the double-far pointer to it.
+func reroot(segs [][]byte, o *bfsbuild.Obj) [][]byte {
+	out := make([][]byte, len(segs)+1)
+	for i := range segs {
+		out[i] = append([]byte{}, segs[i]...)
+	}
+	start := uint64(o.Off / 8)
+	var tag uint64
+	switch {
+	case !o.IsList:
+		tag = uint64(o.DW)<<32 | uint64(o.PC)<<48
+	case o.Elem == ref.ElemComposite:
+		start-- // the tag word
+		tag = 1 | 7<<32 | uint64(o.N*(o.DW+o.PC))<<35
+	default:
+		tag = 1 | uint64(o.Elem)<<32 | uint64(o.N)<<35
+	}
+	pad := make([]byte, 16)
+	binary.LittleEndian.PutUint64(pad[0:], 2|start<<3|uint64(o.Seg)<<32)
+	binary.LittleEndian.PutUint64(pad[8:], tag)
+	out[len(segs)] = pad
+	binary.LittleEndian.PutUint64(out[0][0:], 2|4|uint64(len(segs))<<32)
+	return out
+}
+
 func main() {
 	vlib.Main(vlib.Spec{
 		ID:    "C05",
@@ -133,7 +203,7 @@ func main() {
 		},
 		CaseTimeout: 15 * time.Minute,
 		SelfTest:    ref.SelfTest,
-		Families: func(tier string) []vlib.Family { return bfsbuild.Families(tier, oracle) },
-		Extra:    bfsbuild.PlanSummary,
+		Families:    func(tier string) []vlib.Family { return bfsbuild.Families(tier, oracle) },
+		Extra:       bfsbuild.PlanSummary,
 	})
 }
